@@ -207,14 +207,26 @@ def gen_def(R, opts=None):
     return d
 
 
+LOOKS_END = ['$', '(?-u:\\b)', '(?m:$)', '(?-u:\\B)', '(?mR:$)', '(?-u:\\b{end})', '(?-u:\\b{end-half})']
+LOOKS_MID = ['(?-u:\\b)', '(?-u:\\B)', '(?m:$)', '(?m:^)', '(?mR:$)', '(?mR:^)', '(?-u:\\b{start})', '(?-u:\\b{end})',
+             '(?-u:\\b{start-half})', '(?-u:\\b{end-half})', '$', '^']
+LOOK_TAILS = ['-', ' ', '[a-z]', '\\n', '\\r\\n', '[0-9]+', '\\r?\\n', '[ -~]', '_?x']
+
+
 def with_look(R, d):
-    """append a look-around assertion to one regex leaf"""
-    c = [l for l in d.leaves if l.kind == 'regex']
+    """put a look-around assertion at the end of one regex leaf, or between a leaf and a short tail"""
+    c = [l for l in d.leaves if l.kind == 'regex' and not getattr(l, 'is_bytes', False)]
     if not c:
         return d
     l = R.choice(c)
-    l.pat = l.pat + R.choice(['$', '(?-u:\\b)', '(?m:$)'])
+    if R.random() < 0.5:
+        l.pat = '(?:' + l.pat + ')' + R.choice(LOOKS_END)
+    else:
+        l.pat = '(?:' + l.pat + ')' + R.choice(LOOKS_MID) + R.choice(LOOK_TAILS)
     l.look = True
+    if R.random() < 0.3:
+        # a second leaf competing around line ends / word ends
+        d.leaves.append(Leaf('regex', R.choice(['\\r?\\n', '[a-z0-9_]+', '[ -~]', '\\r'])))
     return d
 
 
@@ -246,6 +258,15 @@ def fixed_corpus():
     out.append(Def([L('regex', 'c$'), L('regex', 'c[a-b]+'), L('token', 'd')], origin='fixed:eoi'))
     out.append(Def([L('regex', 'c$'), L('token', 'd'), L('regex', 'ab$')], origin='fixed:eoi2'))
     out.append(Def([L('regex', '[a-z]+(?-u:\\b)'), L('regex', '[a-z]+[0-9]', prio=20), L('skip', ' +')], origin='fixed:wordb'))
+    # look-around in the middle of a pattern, negated word boundary, half boundaries, CRLF-aware line ends,
+    # an assertion that can never hold (pruned as a dead end)
+    out.append(Def([L('regex', '[a-z]+(?-u:\\b)-'), L('regex', '[a-z]+(?-u:\\B)[0-9]'), L('regex', '[a-z]+'), L('token', '-'),
+                    L('regex', '[0-9]+')], origin='fixed:look-mid'))
+    out.append(Def([L('regex', '[a-z]+(?mR:$)'), L('regex', '[a-z]+;'), L('regex', '\\r?\\n'), L('regex', '\\r', prio=1)], origin='fixed:look-crlf'))
+    out.append(Def([L('regex', 'ab(?-u:\\b)c'), L('token', 'abd'), L('regex', 'a(?-u:\\b{end-half})'), L('regex', '[b-z]+(?m:$)\\n?')],
+                   origin='fixed:look-unsat'))
+    out.append(Def([L('regex', '#(?-u:\\b{start})[a-z]+'), L('regex', '[a-z]+(?-u:\\b{end})'), L('regex', '[a-z]+[0-9]+'), L('token', '#'),
+                    L('skip', ' ')], origin='fixed:look-startend'))
     # string / comment style tokens, lazy and greedy
     out.append(Def([L('regex', '"([^"\\\\]|\\\\.)*"'), L('regex', '/\\*([^*]|\\*[^/])*\\*/'), L('regex', '//[^\\n]*', allow_greedy=True),
                     L('skip', '[ \\n]+'), L('regex', '[a-z]+')], origin='fixed:strings'))
@@ -293,7 +314,7 @@ def corpus(seed, n_gen, opts=None):
     out = list(fixed_corpus())
     for i in range(n_gen):
         d = gen_def(R, opts)
-        if R.random() < 0.12:
+        if R.random() < 0.15:
             d = with_look(R, d)
         out.append(d)
     return out
